@@ -66,6 +66,26 @@ def usable : RTy → Bool
   | .map k v => ordOk k && usable k && usable v
   | _ => true
 
+/-- `is_double`: whether a field gets the `DoubleOps` methods for its comparison, equality and hash (a reference
+is a type of its own, with its own order) -/
+def isDouble : CTy → Bool
+  | .prim .double => true
+  | .prim _ => false
+  | .optional t => isDouble t
+  | .list t => isDouble t
+  | .set _ => false
+  | .map _ v => isDouble v
+  | .ref _ => false
+  | .ext fb => isDouble fb
+
+/-- the types `DoubleOps` is implemented for: `f64`, and `Option`, `Vec` and the values of a `BTreeMap` of such -/
+def doubleOpsOk : RTy → Bool
+  | .f64 => true
+  | .option t => doubleOpsOk t
+  | .vec t => doubleOpsOk t
+  | .map _ v => doubleOpsOk v
+  | _ => false
+
 def render : RTy → String
   | .f64 => "f64"
   | .doubleKey => "DoubleKey"
@@ -101,7 +121,7 @@ def handle : List String → String
   | ["rusttype", t] =>
     match parse t with
     | some s => match rdTy 64 s with
-      | some t => render (rustType false t)
+      | some t => render (rustType false t) ++ (if isDouble t then " double-ops" else "")
       | none => "bad-op"
     | none => "bad-op"
   | _ => "bad-op"
